@@ -329,7 +329,10 @@ class _Run:
                       f'{type(e).__name__}: {str(e)[:200]}')
     else:
       # say what happened before complaining: did the mutation go through?
-      self_changed = gin.config_str() != before
+      try:
+        self_changed = gin.config_str() != before
+      except Exception as e:  # pylint: disable=broad-except
+        self_changed = f'config_str() now fails with {type(e).__name__}'
       raise Violation(f'locked:{what}:did-not-raise',
                       f'config is locked, {what} returned normally '
                       f'(config_str changed: {self_changed})')
